@@ -105,11 +105,7 @@ pub(super) fn spec_conditions_hold(c: &AuthorityConditions, a: &AuthContext, now
 }
 
 // ---------------------------------------------------------------------------
-// builders (structure concrete, payload symbolic)
-// ---------------------------------------------------------------------------
-
-// ---------------------------------------------------------------------------
-// scope_matches
+// scope_matches (builders: c19_common.rs — structure concrete, payload symbolic)
 // ---------------------------------------------------------------------------
 
 fn scope_block(k: &[usize], s: &[usize], c: &[usize], e: &[usize], r: [usize; 4]) {
